@@ -6,6 +6,7 @@ encode obligations  C04.enc.<dialect>.<Class>.<region>:  forall values v in the 
 Den is the explicit denotation written in contracts/codecs.py from the property statement; which escape forms a dialect has
 is read off its token regex.  Engine: fst (all strings); the extracted transducers are validated against CPython running the
 real functions on every run."""
+import sys
 import ast, re, itertools
 import z3
 from vlib import repo, lrtab, codec, pysym, lexmodel
@@ -669,8 +670,53 @@ def bounded(rep, tier):
                 if bad:
                     pr = d.prods[num]
                     fails.setdefault(f'C04.bounded.{dname}.ident-position.{pr.name}', (sql2, f'an Identifier of the tree has the part {bad[0]!r}: the delimiters were not removed (production {pr.name}: {" ".join(pr.prod)})'))
+    # names the grammar actions treat specially (string constants they compare a lower()/upper()-cased name with, e.g. 'last'): as the last part of a
+    # qualified name they are ordinary column names - the identifier path keeps all its parts and their case, exactly as it does for any other name
+    import ast as _ast
+    magic = set()
+    for dname in lrtab.DIALECTS:
+        d = lrtab.load(dname)
+        try:
+            tree_ = _ast.parse(open(sys.modules[d.Parser.__module__].__file__).read())
+        except Exception:
+            continue
+        for cmp_ in _ast.walk(tree_):
+            if not isinstance(cmp_, _ast.Compare):
+                continue
+            sides = [cmp_.left] + list(cmp_.comparators)
+            if not any(isinstance(c_, _ast.Call) and isinstance(c_.func, _ast.Attribute) and c_.func.attr in ('lower', 'upper') for x_ in sides for c_ in _ast.walk(x_)):
+                continue
+            for x_ in sides:
+                for c_ in _ast.walk(x_):
+                    if isinstance(c_, _ast.Constant) and isinstance(c_.value, str) and c_.value.isidentifier() and 2 <= len(c_.value) <= 12:
+                        magic.add(c_.value.lower())
+    rep.census['magic_names'] = sorted(magic)
+    for dname in lrtab.DIALECTS:
+        d = lrtab.load(dname)
+        for num, sql in corpus.production_sentences(dname):
+            toks = sql.split()
+            if 'abc' not in toks:
+                continue
+
+            def count_with(name):
+                sqlq = ' '.join(f'xq.{name}' if t == 'abc' else t for t in toks)
+                try:
+                    tr = parse_sql(sqlq, dialect=dname)
+                except Exception:
+                    return None, sqlq
+                return sum(1 for idn in idents(tr, set()) if list(idn.parts) == ['xq', name]), sqlq
+            c0, _ = count_with('Zzq')
+            if not c0:
+                continue
+            for w in sorted(magic):
+                name = w.capitalize()
+                n += 1
+                c1, sqlq = count_with(name)
+                if c1 is not None and c1 != c0:
+                    pr = d.prods[num]
+                    fails.setdefault(f'C04.bounded.{dname}.qualified-special-name.{w}.{pr.name}', (sqlq, f'{c0} identifier(s) xq.Zzq are kept for the same sentence with an ordinary name, but only {c1} xq.{name} (production {pr.name}: {" ".join(pr.prod)})'))
     rep.bounded_evals = n
-    rep.bounded_rule = (f'one sentence per production with every plain name written as `A b`: no Identifier part of the tree keeps a back-quote; all strings of length <= {maxlen} over {chars} as Constant values printed and re-parsed in each dialect; floats m*10^e for e in -7..17; '
+    rep.bounded_rule = (f'one sentence per production with every plain name written as `A b`: no Identifier part of the tree keeps a back-quote; qualified names whose last part is a word the actions treat specially keep all parts like any other name; all strings of length <= {maxlen} over {chars} as Constant values printed and re-parsed in each dialect; floats m*10^e for e in -7..17; '
                         'failures grouped by dialect x region (same regions as the fst obligations)')
     for cid, (inp, obs) in sorted(fails.items()):
         rep.add_bounded(Bounded(cid, False, inp, obs, 'value read back unchanged', bound=f'len<={maxlen}'))
